@@ -26,11 +26,17 @@ CONSTANTS Size,      \* window size
           RegisterEarly, \* TRUE (the code since repair b8703e6): a fired window is registered for late data BEFORE the lock is
                      \* released for its delivery (as the tumbling window does); FALSE: only after the delivery, when the lock has
                      \* been taken again - a late row arriving in between finds no open window and is dropped (LateRedelivered fails)
+          LateAtomic, \* a late row's re-deliveries are sent one by one with the window lock RELEASED (the trigger goroutine may
+                     \* run in between and evict the late row from the buffer). TRUE (the code since the repair): the snapshots of
+                     \* ALL open windows containing the row are updated under the lock before the first re-delivery; FALSE (old code):
+                     \* each window's update is computed when its turn comes, from the buffer as it is THEN (LateRedelivered fails)
           Emit       \* TRUE: print every complete behaviour as a JSON scenario
 
-VARIABLES data, cur, maxTs, wmCur, wmSent, wmChan, open, tpc, twm, pend, out, emitted, hist
+VARIABLES data, cur, maxTs, wmCur, wmSent, wmChan, open, tpc, twm, pend, out, emitted, hist,
+          lq,      \* Add is inside handleLateData: re-deliveries computed and not yet sent (the lock is released while one is sent)
+          ltodo    \* (old code) starts of the open windows whose update is still to be computed
 
-vars == <<data, cur, maxTs, wmCur, wmSent, wmChan, open, tpc, twm, pend, out, emitted, hist>>
+vars == <<data, cur, maxTs, wmCur, wmSent, wmChan, open, tpc, twm, pend, out, emitted, hist, lq, ltodo>>
 
 NoWm == -1000          \* "zero time": below every reachable watermark
 Align(t) == (t \div Slide) * Slide
@@ -43,7 +49,7 @@ Init ==
   /\ data = <<>> /\ cur = -1 /\ maxTs = -1 /\ wmCur = NoWm /\ wmSent = NoWm /\ wmChan = <<>>
   /\ open = <<>>           \* sequence of [ws, snap] (triggeredWindows, with snapshot row seq)
   /\ tpc = "idle" /\ twm = NoWm /\ pend = <<>>
-  /\ out = <<>> /\ emitted = <<>> /\ hist = <<>>
+  /\ out = <<>> /\ emitted = <<>> /\ hist = <<>> /\ lq = <<>> /\ ltodo = <<>>
 
 (* ---------------- Watermark.UpdateEventTime + sendWatermarkLocked -------- *)
 NewMax(ts) == IF maxTs = -1 \/ ts > maxTs THEN ts ELSE maxTs
@@ -60,6 +66,13 @@ LateUpd(op, o, d1, idxs, mx) ==
            mine == SelectSeq(d1, LAMBDA r : InWin(r.ts, ws) /\ r.id \notin have)
            rows == op[i].snap \o mine
        IN LateUpd([op EXCEPT ![i].snap = rows], Append(o, [ws |-> ws, ids |-> Ids(rows), kind |-> "late", maxAt |-> mx]), d1, Tail(idxs), mx)
+\* old code: the update of the next listed window that is still open, computed from the buffer d as it is now
+RECURSIVE NextLate(_, _, _, _)
+NextLate(op, d, todo, mx) ==
+  IF todo = <<>> THEN [op |-> op, q |-> <<>>, todo |-> <<>>]
+  ELSE LET I == {i \in 1..Len(op) : op[i].ws = Head(todo)} IN
+       IF I = {} THEN NextLate(op, d, Tail(todo), mx)
+       ELSE LET r == LateUpd(op, <<>>, d, <<CHOOSE i \in I : TRUE>>, mx) IN [op |-> r.op, q |-> r.o, todo |-> Tail(todo)]
 OpenIdx(ts) == {i \in 1..Len(open) : InWin(ts, open[i].ws)}
 \* the contract's view (C02): windows containing ts whose first firing has been delivered and whose allowance the watermark has not passed
 DeliveredOpen(ts, wm) == {out[j].ws : j \in {k \in 1..Len(out) : out[k].kind = "first" /\ InWin(ts, out[k].ws) /\ out[k].ws + Size + AL > wm}}
@@ -67,6 +80,7 @@ DeliveredOpen(ts, wm) == {out[j].ws : j \in {k \in 1..Len(out) : out[k].kind = "
 Add(ts) ==
   /\ Len(emitted) < MaxEv
   /\ tpc \in {"idle", "fired", "sent"}     \* sw.mu is free in all three
+  /\ lq = <<>>                             \* one producer (the stream's processor goroutine): the previous Add has returned
   /\ LET id    == Len(emitted) + 1
          row   == [id |-> id, ts |-> ts]
          wm1   == NewWm(ts)
@@ -83,15 +97,17 @@ Add(ts) ==
      /\ emitted' = Append(emitted, [id |-> id, ts |-> ts, late |-> late, owed |-> IF late /\ AL > 0 THEN {open[i].ws : i \in oi} \cup DeliveredOpen(ts, wm1) ELSE {}])
      /\ hist' = Append(hist, [a |-> "add", id |-> id, ts |-> ts])
      /\ IF ~late \/ (inCur /\ ~LateAll)
-          THEN /\ data' = d1 /\ open' = open /\ out' = out
+          THEN /\ data' = d1 /\ open' = open /\ out' = out /\ lq' = <<>> /\ ltodo' = <<>>
                /\ cur' = IF Reanchor /\ ~late /\ ts < cur0 /\ InWin(ts, Align(ts)) THEN Align(ts) ELSE cur0
           ELSE IF LateAll
                  THEN \* handleLateData (repaired): every open window containing ts, in window order; the row stays buffered when it
                       \* lies in the current window or in an open one, otherwise dropLastRow
+                      \* the re-deliveries are queued (lq): each is sent with the lock released (LateSend)
                       LET idxs == SelectSeq([k \in 1..Len(open) |-> k], LAMBDA k : AL > 0 /\ k \in oi)
-                          r    == LateUpd(open, out, d1, idxs, NewMax(ts))
+                          r    == IF LateAtomic THEN LET u == LateUpd(open, <<>>, d1, idxs, NewMax(ts)) IN [op |-> u.op, q |-> u.o, todo |-> <<>>]
+                                  ELSE NextLate(open, d1, [k \in 1..Len(idxs) |-> open[idxs[k]].ws], NewMax(ts))
                       IN /\ data' = IF inCur \/ idxs # <<>> THEN d1 ELSE data
-                         /\ open' = r.op /\ out' = r.o /\ cur' = cur0
+                         /\ open' = r.op /\ out' = out /\ lq' = r.q /\ ltodo' = r.todo /\ cur' = cur0
           ELSE IF AL > 0 /\ oi # {}
                  THEN \* handleLateData (old): ONE open window containing ts (map order); snapshot + rows still buffered, de-duplicated
                       \E i \in oi :
@@ -102,9 +118,19 @@ Add(ts) ==
                       IN /\ data' = d1
                          /\ open' = [open EXCEPT ![i].snap = rows]
                          /\ out' = Append(out, [ws |-> ws, ids |-> Ids(rows), kind |-> "late", maxAt |-> NewMax(ts)])
-                         /\ cur' = cur0
-                 ELSE /\ data' = data /\ open' = open /\ out' = out /\ cur' = cur0   \* dropLastRow
+                         /\ cur' = cur0 /\ lq' = <<>> /\ ltodo' = <<>>
+                 ELSE /\ data' = data /\ open' = open /\ out' = out /\ cur' = cur0 /\ lq' = <<>> /\ ltodo' = <<>>   \* dropLastRow
   /\ UNCHANGED <<tpc, twm, pend>>
+
+\* triggerLateUpdateLocked, second half: callback + send with sw.mu released, then the lock is taken again (for the next window's
+\* update, or for Add to return). The trigger goroutine may have run since the update was computed.
+LateSend ==
+  /\ lq # <<>>
+  /\ out' = Append(out, Head(lq))
+  /\ IF Len(lq) > 1 THEN /\ lq' = Tail(lq) /\ UNCHANGED <<open, ltodo>>
+     ELSE LET n == NextLate(open, data, ltodo, Head(lq).maxAt) IN /\ open' = n.op /\ lq' = n.q /\ ltodo' = n.todo
+  /\ hist' = Append(hist, [a |-> "latesend"])
+  /\ UNCHANGED <<data, cur, maxTs, wmCur, wmSent, wmChan, tpc, twm, pend, emitted>>
 
 (* ---------------- checkAndTriggerWindows ---------------------------------- *)
 \* run the loop from slot c with buffer d: the cursor advances BEFORE the window is examined;
@@ -138,7 +164,7 @@ Trig ==
   /\ tpc = "idle" /\ wmChan # <<>> /\ cur # -1
   /\ wmChan' = Tail(wmChan)
   /\ Run(Head(wmChan), "trig", open)
-  /\ UNCHANGED <<maxTs, wmCur, wmSent, out, emitted>>
+  /\ UNCHANGED <<maxTs, wmCur, wmSent, out, emitted, lq, ltodo>>
 
 \* callback + sendResult outside the lock: the delivery becomes observable, the lock is still free
 Send ==
@@ -146,13 +172,13 @@ Send ==
   /\ out' = Append(out, [ws |-> pend.ws, ids |-> Ids(pend.rows), kind |-> "first", maxAt |-> maxTs])
   /\ tpc' = "sent"
   /\ hist' = Append(hist, [a |-> "send"])
-  /\ UNCHANGED <<data, cur, maxTs, wmCur, wmSent, wmChan, open, twm, pend, emitted>>
+  /\ UNCHANGED <<data, cur, maxTs, wmCur, wmSent, wmChan, open, twm, pend, emitted, lq, ltodo>>
 
 \* the trigger goroutine takes the lock again (the old code registered the window as open for late data only now) and continues the loop
 Relock ==
   /\ tpc = "sent"
   /\ Run(twm, "relock", IF ~RegisterEarly /\ AL > 0 THEN Append(open, [ws |-> pend.ws, snap |-> pend.rows]) ELSE open)
-  /\ UNCHANGED <<maxTs, wmCur, wmSent, wmChan, out, emitted>>
+  /\ UNCHANGED <<maxTs, wmCur, wmSent, wmChan, out, emitted, lq, ltodo>>
 
 \* Watermark.update (ticker, every WatermarkInterval): re-send a watermark that did not fit into the full channel.
 \* It takes only the watermark's own lock, so it may interleave anywhere.
@@ -160,12 +186,12 @@ Tick ==
   /\ wmCur > wmSent /\ Len(wmChan) < ChanCap
   /\ wmChan' = Append(wmChan, wmCur) /\ wmSent' = wmCur
   /\ hist' = Append(hist, [a |-> "tick"])
-  /\ UNCHANGED <<data, cur, maxTs, wmCur, open, tpc, twm, pend, out, emitted>>
+  /\ UNCHANGED <<data, cur, maxTs, wmCur, open, tpc, twm, pend, out, emitted, lq, ltodo>>
 
-Quiet == tpc = "idle" /\ wmChan = <<>> /\ wmSent = wmCur
+Quiet == tpc = "idle" /\ wmChan = <<>> /\ wmSent = wmCur /\ lq = <<>>
 Complete == Len(emitted) = MaxEv /\ Quiet
 
-Next == (\E ts \in 0..MaxTs : Add(ts)) \/ Trig \/ Send \/ Relock \/ Tick
+Next == (\E ts \in 0..MaxTs : Add(ts)) \/ LateSend \/ Trig \/ Send \/ Relock \/ Tick
 
 Spec == Init /\ [][Next]_vars
 
@@ -217,7 +243,8 @@ NoOnTimeLoss ==
 NotBeforeS0 == \A i \in 1..Len(out) : (OnTime # {} /\ out[i].kind = "first") => out[i].ws >= S0 \/ \E k \in 1..Len(out[i].ids) : emitted[out[i].ids[k]].late
 
 \* C02(c): a late row is re-delivered with EVERY fired window that contained it and was still open when it arrived
-LateRedelivered == \A id \in 1..Len(emitted) : \A ws \in emitted[id].owed :
+\* (once its Add has returned: the re-deliveries are sent one by one from inside Add)
+LateRedelivered == lq = <<>> => \A id \in 1..Len(emitted) : \A ws \in emitted[id].owed :
                       \E i \in 1..Len(out) : out[i].kind = "late" /\ out[i].ws = ws /\ id \in SeqSet(out[i].ids)
 
 DeadBandSilent == TRUE
@@ -237,5 +264,5 @@ ImplOK == /\ (cur # -1 => cur % Slide = 0)
 (* ---------------- scenario output ----------------------------------------- *)
 EmitScenario == (Emit /\ Complete) => PrintT(<<"SCEN", ToJson(hist)>>)
 
-View == <<data, cur, maxTs, wmCur, wmSent, wmChan, open, tpc, twm, pend, out, emitted>>
+View == <<data, cur, maxTs, wmCur, wmSent, wmChan, open, tpc, twm, pend, out, emitted, lq, ltodo>>
 =============================================================================
